@@ -128,6 +128,7 @@ class Part:
     exhaustive: bool = False  # enum parts: True when the items are a complete finite space
     shard: bool = True  # False: run only in shard 0
     self_sharded: bool = False  # enum parts: items(ctx) already yields only this shard's slice
+    case_timeout_s: float = 120.0  # wall-clock limit of one property body; expiry = inconclusive, never a violation
 
     @property
     def kind(self) -> str:
@@ -260,8 +261,14 @@ def _hyp_settings(max_examples: int, shrink: bool):
 
 def _guarded(ctx: Ctx, part: Part, case: Any) -> None:
     """Run a property body; classify uncaught exceptions."""
+    from vlib.timeouts import TimeLimit, time_limit
+
     try:
-        part.body(ctx, case)
+        with time_limit(part.case_timeout_s):
+            part.body(ctx, case)
+    except TimeLimit:
+        ctx.inconclusive[part.name + ":case-timeout"] += 1
+        return
     except _TargetHit:
         raise
     except HarnessError:
@@ -411,6 +418,10 @@ def replay_case(mod, ctx: Ctx, rec: Dict[str, Any]) -> Dict[str, Dict[str, Any]]
 
 
 def run_shard(prop: str, tier: str, seed: int, shard: int, nshards: int, out: str) -> int:
+    import faulthandler
+    import signal
+
+    faulthandler.register(signal.SIGUSR1, all_threads=True)  # kill -USR1 <pid> prints the stack of a stuck shard
     mod = importlib.import_module(CHECKS[prop])
     ctx = new_ctx(mod, prop, tier, seed, shard, nshards)
     t0 = time.time()
@@ -576,8 +587,21 @@ def run_parent(prop: str, tier: str, seed: int, replay: Optional[str], shards_ov
         "notes": [],
     }
     harness_fail = False
+    # backstop: a shard that outlives every budget it has (parts + shrinking) is stuck; dump its stack and stop it
+    shrink_budget = 45.0 if tier == "quick" else 240.0
+    hard_limit = sum(p.budget_s[tier] for p in mod.parts(ctx)) + 6 * shrink_budget + 600.0
+    t_hard = time.time() + hard_limit
     for i, out, p in procs:
-        stdout, _ = p.communicate()
+        try:
+            stdout, _ = p.communicate(timeout=max(t_hard - time.time(), 1.0))
+        except subprocess.TimeoutExpired:
+            import signal as _signal
+
+            p.send_signal(_signal.SIGUSR1)
+            time.sleep(2)
+            p.kill()
+            stdout, _ = p.communicate()
+            sys.stderr.write(f"--- shard {i} exceeded the hard limit of {hard_limit:.0f}s and was stopped\n")
         if p.returncode != 0 or not os.path.exists(out):
             harness_fail = True
             sys.stderr.write(f"--- shard {i} exit {p.returncode}\n{stdout[-6000:]}\n")
